@@ -120,3 +120,42 @@ package tikv
 //@   ensures [unknown-outcome-is-no-conflict] err_is(err, storage.ErrUncertainResult) ==> !err_is(err, storage.ErrCASFailed) && txn_commits == old(txn_commits)+1
 //@   loop 0 invariant [ops] txn_commits == old(txn_commits) && txn_rollbacks == old(txn_rollbacks) && wf_batch(b)
 //@   loop 1 invariant [classified] err != nil && !err_is(err, storage.ErrCASFailed) && txn_commits == old(txn_commits)+1 && txn_rollbacks == old(txn_rollbacks) && wf_batch(b)
+
+// ---- the iterator ----
+// it_key / it_valid: the client iterator's current key and validity (ghost, per iterator value)
+//@ ghost it_key (Array Iface Slice)
+//@ ghost it_valid (Array Iface Bool)
+
+//@ func tiKvIterator.Valid() (result)
+//@   assumed
+//@   pure
+//@   ensures [def] result == it_valid[self]
+//@ func tiKvIterator.Key() (result)
+//@   assumed
+//@   pure
+//@   ensures [def] result == it_key[self]
+//@ func tiKvIterator.Value() (result)
+//@   assumed
+//@   pure
+//@ func tiKvIterator.Next() (err)
+//@   assumed
+//@   modifies ghost.it_key ghost.it_valid
+//@ func tiKvIterator.Close()
+//@   assumed
+//@   pure
+
+//@ pred wf_iter(i) = i != nil && i.iter != nil
+
+// a key is handed out only if it lies on the requested side of the end bound (end exclusive),
+// in both directions and for the first element too
+//@ func (*iter).checkBorder() (err)
+//@   props C11
+//@   requires wf_iter(i)
+//@   ensures [end-exclusive] err == nil ==> ite(i.reverse, bytes_cmp(it_key[i.iter], i.end) > 0, bytes_cmp(it_key[i.iter], i.end) < 0)
+
+//@ func (*iter).Next(ctx) (err)
+//@   props C11
+//@   requires wf_iter(i)
+//@   modifies inferred:(*iter).Next
+//@   ensures [only-keys-of-the-interval] err == nil ==> it_valid[i.iter] && ite(i.reverse, bytes_cmp(it_key[i.iter], i.end) > 0, bytes_cmp(it_key[i.iter], i.end) < 0)
+//@   ensures [limit] err == nil && old(i.limit) > 0 ==> old(i.count) < old(i.limit)
